@@ -2,8 +2,9 @@
    (Model/Checker.v): what Optimizer.init does with a query TEXT before anything touches the
    storage -- NewParser (Lexer.Split), Parser.Parse (syntax, the four semantic tests run in the
    middle of parsing, Validate / Check / ValidateFields once the statement has been read) and
-   checkStatementFunctionCalls -- plus the three tests of buildFinalPlan that come before the
-   first Init.
+   checkStatementFunctionCalls -- plus optimizeSelectExpressions on the select fields and the
+   three tests of buildFinalPlan that come before the first Init (buildFinalPlan looks at the
+   fields the constant folder left in stmt.Fields).
 
      to_check      StmtParser.stmt -> option Checker.stmt: the statement as the checker twin
                    takes it (FieldNames zipped with Fields, WHERE, position and name of every
@@ -12,16 +13,14 @@
                    Checker.stmt has no place for (statement / clause positions, LIMIT, the GROUP
                    BY items) stays in the parser's statement, which [parse_check] returns next
                    to the checked one.  None (outside the checker twin):
-                     - a SELECT with GROUP BY in which a select field uses the name of a select
-                       field (kept outside since before resolveFieldNames existed, when
-                       parseGroupBy's Check rewrote such fields in place ahead of WHERE and
-                       ValidateFields; the aggregation plan built for such statements is not
-                       part of this twin either);
                      - a SELECT whose FieldNames and Fields differ in length (Parser.Parse never
-                       builds one: Proofs/ParseCheckProofs.v, parsed_select_lengths, to_check_none_iff).
-                   With GROUP BY and no field name inside the fields the Check of the GROUP BY
-                   fields leaves every field as it is (Check only rewrites names that are
-                   fields), so Checker.build_check applies unchanged.
+                       builds one: Proofs/ParseCheckProofs.v, parsed_select_lengths,
+                       to_check_parsed_some).
+                   GROUP BY: SelectStmt.resolveFieldNames has turned the field names inside the
+                   select fields into references before parseGroupBy checks the GROUP BY fields,
+                   so that Check leaves every field as it is and Checker.build_check applies
+                   unchanged -- also when a select field uses the name of a select field
+                   (`select int(value) as n, sum(n) as s where .. group by n`).
      check_cycles  twin of SelectStmt.checkFieldCycles (statement.go).
      real_hooks    the four mid-parse tests computed by the checker twin:
                      checkFieldCycles                       check_cycles
@@ -29,14 +28,24 @@
                      findFieldInSelect + aggregate-name test (GROUP BY item)            } resolveFieldNames
                      Check of the GROUP BY fields           Checker.check ([gcheck_loop]) } left them (Checker.link)
      parse_real    parse_with real_hooks
+     fold_fields   optimizeSelectExpressions on stmt.Fields: every field replaced by what
+                   ExpressionOptimizer.Optimize returns for it (Model/FoldStmt.exec_tree, as in
+                   Model/PipelineS.plan_of_front).
+     plan_check    the tests of buildFinalPlan on the FOLDED fields: `true | count(1) > 0 as x`
+                   is folded to `true` -- no aggregate call is left, a ProjectionPlan is built.
      parse_check   lex, parse_real, to_check, Checker.build_check (its two stages check_stmt and
-                   check_stmt_calls told apart), [plan_check].
+                   check_stmt_calls told apart), [plan_oom], [plan_check].  Parameters: the
+                   float operations, and the two the folder needs -- the regexp oracle and
+                   fmt.Sprintf("%v", float64) (Model/Fold.v).  What it returns for an accepted
+                   text are the CHECKED trees (what Parser.Parse returns; the folded ones are
+                   FoldStmt.exec_tree of them).
 
    ORDER of errors = order of the Go code: a syntax error or a failing mid-parse test, whichever
    the parser meets first (the tests are hooks of the parser twin, called where parser.go calls
    them); then, for SELECT: WHERE (name resolution, Check, Boolean), the fields one after the
    other (Check, aggregate arguments); for PUT / REMOVE / DELETE their Validate; then the call
-   validation of optimizer.go (WHERE before fields; pairs; keys); then buildFinalPlan.
+   validation of optimizer.go (WHERE before fields; pairs; keys); then the folder (which reports
+   no error: Proofs/ExecPosProofs.v fold_reports_no_error); then buildFinalPlan.
    Checker.check_select begins with the ORDER BY lookup ([check_order]); here that has already
    passed as a hook, on the same names and the same resolved fields, and passes again.
 
@@ -48,6 +57,10 @@
      - a GROUP token together with a call whose function "name" is itself a compound
        expression ( `)` or `]` directly before `(` ): parseGroupBy EXECUTES the name expression
        (GetFuncNameFromExpr) in the middle of parsing; the evaluator is not part of this twin.
+   Decided after the call validation has passed ([plan_oom]):
+     - Pipeline.fold_oom for a select field: a constant sub-tree the folder reaches that the
+       evaluator twin cannot evaluate (json, a regular expression the oracle does not answer, a
+       float outside Base/Flt) -- what buildFinalPlan sees of that field is not known.
    After [PCOk], when buildFinalPlan builds an AggregatePlan ([aggregate_plan] = true),
    AggregatePlan.Init validates aggregate argument counts and bodies: not modelled here
    (Model/Aggregate.v belongs to C09); the correspondence counts a rejection there as outside
@@ -63,7 +76,7 @@ From Coq Require Import String List Arith Bool ZArith.
 Import ListNotations.
 From KV Require Import Base.Bytes Base.Num Model.Token Model.Ast Model.Value Model.Eval Model.Lexer
                        Model.ExprParser Model.ErrPos Model.StmtParser.
-From KV Require Model.Checker.
+From KV Require Model.Checker Model.Fold Model.FoldStmt Model.Pipeline.
 Local Open Scope string_scope.
 Local Open Scope list_scope.
 
@@ -76,26 +89,10 @@ Definition order_items (o : option order_t) : list (nat * string) :=
   | None => []
   end.
 
-(* does Check resolve a name in this tree?  (every NameExpr outside a function-name position
-   whose text is a field name; a tree that already holds a reference) *)
-Fixpoint uses_field_name (names : list string) (e : expr) {struct e} : bool :=
-  match e with
-  | EBin _ _ l r => uses_field_name names l || uses_field_name names r
-  | ENot _ r => uses_field_name names r
-  | ECall _ _ args => existsb (uses_field_name names) args
-  | EName _ s => existsb (String.eqb s) names
-  | ERef _ _ _ => true
-  | EList _ items => existsb (uses_field_name names) items
-  | EAccess _ l f => uses_field_name names l || uses_field_name names f
-  | _ => false
-  end.
-
 Definition to_check (s : stmt) : option Checker.stmt :=
   match s with
   | StSelect x =>
       if negb (Nat.eqb (length (s_names x)) (length (s_fields x))) then None
-      else if match s_group x with Some _ => existsb (uses_field_name (s_names x)) (s_fields x) | None => false end
-      then None
       else Some (Checker.SSelect (combine (s_names x) (s_fields x)) (s_where x) (order_items (s_order x)))
   | StPut _ pairs => Some (Checker.SPut pairs)
   | StRemove _ keys => Some (Checker.SRemove keys)
@@ -246,6 +243,8 @@ Fixpoint named_idx (i : nat) (fs : list (string * expr)) (s : string) : option n
 
 Section Real.
 Variable fo : fops.
+Variable re_match : bytes -> bytes -> Value.res bool.   (* the regexp oracle of the evaluator twin *)
+Variable fmt_v : F fo -> string.                        (* fmt.Sprintf("%v", float64), see Model/Fold.v *)
 
 (* for _, f := range fields { f.Expr.Check(ctx) }: the group field of a key / value item is the
    item itself; of any other item the select field found for its name (the first field with that
@@ -350,10 +349,22 @@ Definition plan_select (x : select_t) (fields : list (string * expr)) : plan_out
     end
   else PlAggregate.
 
+(* optimizeSelectExpressions: stmt.Fields[i] = eo.Optimize() *)
+Definition fold_fields (fields : list (string * expr)) : list (string * expr) :=
+  map (fun nf => (fst nf, FoldStmt.exec_tree fo re_match fmt_v (snd nf))) fields.
+
+(* buildFinalPlan runs after optimizeSelectExpressions: [c] is the CHECKED statement *)
 Definition plan_check (s : stmt) (c : Checker.stmt) : plan_out :=
   match s, c with
-  | StSelect x, Checker.SSelect fields _ _ => plan_select x fields
+  | StSelect x, Checker.SSelect fields _ _ => plan_select x (fold_fields fields)
   | _, _ => PlProjection                       (* PutPlan / RemovePlan / DeletePlan: Init returns nil *)
+  end.
+
+(* a select field whose folding is outside the evaluator twin *)
+Definition plan_oom (c : Checker.stmt) : bool :=
+  match c with
+  | Checker.SSelect fields _ _ => existsb (fun nf => Pipeline.fold_oom fo re_match fmt_v (snd nf)) fields
+  | _ => false
   end.
 
 (* ------------------------------------------------------------------ the composite *)
@@ -396,6 +407,17 @@ Definition sres_is_err (r : sres) (z : Z) : bool :=
   | _ => false
   end.
 
+(* optimizeSelectExpressions + buildFinalPlan's tests, for a statement that passed the checker
+   and the call validation ([c2]: the checked statement) *)
+Definition plan_stage (s : stmt) (c2 : Checker.stmt) : pcres :=
+  if plan_oom c2 then PCOutOfModel
+  else
+    match plan_check s c2 with
+    | PlErr z => PCErr KPlan z
+    | PlProjection => PCOk s c2 false
+    | PlAggregate => PCOk s c2 true
+    end.
+
 Definition check_parsed (s : stmt) : pcres :=
   match to_check s with
   | None => PCOutOfModel
@@ -404,12 +426,7 @@ Definition check_parsed (s : stmt) : pcres :=
       match Checker.check_stmt fo true c with
       | Ok c2 =>
           match Checker.check_stmt_calls c2 with
-          | Ok _ =>
-              match plan_check s c2 with
-              | PlErr z => PCErr KPlan z
-              | PlProjection => PCOk s c2 false
-              | PlAggregate => PCOk s c2 true
-              end
+          | Ok _ => plan_stage s c2
           | Err (ESyntax p) => PCErr KCalls (Z.of_nat p)
           | Err _ => PCOther
           | Panic => PCPanic
